@@ -68,8 +68,9 @@ def cases(rng, tier):
     for _ in range(120 * n):
         hostile = rng.random() < 0.3
         pool_u = [common.rnd_ident(rng) for _ in range(2)] if hostile else []
-        users = ["diana", "bob", "u3", "u4"][: rng.randint(2, 4)] + pool_u
-        clients = ["c1", "c2", "https://rp.example/cb", "c4"][: rng.randint(2, 4)] + ([common.rnd_ident(rng)] if hostile else [])
+        # sibling names in a prefix relation (diana/dianalena, c1/c10) exercise key-prefix confusions
+        users = rng.sample(["diana", "dianalena", "bob", "u3", "d"], rng.randint(2, 4)) + pool_u
+        clients = rng.sample(["c1", "c10", "c2", "https://rp.example/cb", "https://rp.example/cb2"], rng.randint(2, 4)) + ([common.rnd_ident(rng)] if hostile else [])
         ops, grants = [], []   # grants: (u, c, gi)
         for _ in range(rng.randint(3, 14 if tier == "quick" else 30)):
             r = rng.random()
